@@ -16,7 +16,7 @@ import (
 )
 
 const (
-	MaxTasks    = 64
+	MaxTasks    = 256
 	MaxSwitches = 1 << 16
 	MaxObjs     = 4
 )
@@ -447,8 +447,15 @@ func OpBegin(op int32, objs []int32, next []int32) {
 	t.op = op
 	t.lstep = 0
 	t.opSteps = 0
-	t.nobjs = copy(t.objs[:], objs)
-	t.nnext = copy(t.nextObjs[:], next)
+	t.nobjs, t.nnext = 0, 0
+	for i := 0; i < len(objs) && i < MaxObjs; i++ {
+		t.objs[i] = objs[i]
+		t.nobjs++
+	}
+	for i := 0; i < len(next) && i < MaxObjs; i++ {
+		t.nextObjs[i] = next[i]
+		t.nnext++
+	}
 	// boundary yield before entering the operation
 	stepN++
 	stats.OpBoundary++
@@ -646,8 +653,7 @@ func Go(f func()) {
 	}
 	id := spawn(false)
 	if id < 0 {
-		go f()
-		return
+		abort("harness-limit", "more than MaxTasks live tasks")
 	}
 	joinWG.Add(1)
 	go runTask(id, f)
@@ -655,11 +661,23 @@ func Go(f func()) {
 
 //go:norace
 func spawn(client bool) int32 {
-	if ntasks >= MaxTasks {
-		return -1
+	id := int32(-1)
+	if !client {
+		// reuse the slot of a finished library-spawned task
+		for i := int32(1); i < ntasks; i++ {
+			if tasks[i].state == stDone && !tasks[i].client {
+				id = i
+				break
+			}
+		}
 	}
-	id := ntasks
-	ntasks++
+	if id < 0 {
+		if ntasks >= MaxTasks {
+			return -1
+		}
+		id = ntasks
+		ntasks++
+	}
 	old := &tasks[id]
 	tasks[id] = task{state: stRunnable, client: client, prio: int32(rng.next() % 1000),
 		expl: old.expl, explBlk: old.explBlk, explFin: old.explFin}
